@@ -1259,3 +1259,407 @@ example : (isVisible [] [] [⟨['m', '.', 'C', ' ', '0', '.', 'f'], ['f'], false
     ⟨['m', '.', 'C', ' ', '0'], ['C', ' ', '0'], false, false, false⟩, ⟨['m'], ['m'], true, false, true⟩]).1
     = .ok false := by decide
 end Privacy
+
+/-! ## Round 3: the `lru_cache` of `_compile_pattern`, patterns at name edges -/
+namespace Glob
+open Regex
+
+theorem qnmatch_eq_compile (n p : List Char) :
+    qnmatch n p = match compilePattern p with
+      | .ok as => .ok (matchA as n) | .reError => .reError | .indexError => .indexError := by
+  simp only [qnmatch, compilePattern]
+  cases translate p with
+  | none => rfl
+  | some as => by_cases h : compiles as = true <;> simp [h]
+
+/-- every stored entry is what compiling its pattern gives -/
+def LruOk (es : List (List Char × List Atom)) : Prop := ∀ kv ∈ es, compilePattern kv.1 = .ok kv.2
+
+theorem lruFind_ok : ∀ (es : List (List Char × List Atom)) (p : List Char) (as : List Atom),
+    LruOk es → lruFind es p = some as → compilePattern p = .ok as
+  | [], _, _, _, h => by simp [lruFind] at h
+  | (k, v) :: es, p, as, hok, h => by
+    simp only [lruFind] at h
+    by_cases hk : k = p
+    · simp only [hk, if_true, Option.some.injEq] at h
+      have := hok (k, v) (by simp)
+      simp only at this; rw [← hk, ← h]; exact this
+    · simp only [hk, if_false] at h
+      exact lruFind_ok es p as (fun kv hkv => hok kv (List.mem_cons_of_mem _ hkv)) h
+
+theorem lruErase_sub : ∀ (es : List (List Char × List Atom)) (p : List Char) kv,
+    kv ∈ lruErase es p → kv ∈ es
+  | [], _, _, h => by simp [lruErase] at h
+  | (k, v) :: es, p, kv, h => by
+    simp only [lruErase] at h
+    by_cases hk : k = p
+    · simp only [hk, if_true] at h; exact List.mem_cons_of_mem _ h
+    · simp only [hk, if_false, List.mem_cons] at h
+      rcases h with h | h
+      · simp [h]
+      · exact List.mem_cons_of_mem _ (lruErase_sub es p kv h)
+
+theorem qnmatchCached_ok (m : Nat) (c : Lru) (n p : List Char) (hc : LruOk c.entries) :
+    (qnmatchCached m c n p).1 = qnmatch n p ∧ LruOk (qnmatchCached m c n p).2.entries := by
+  rw [qnmatch_eq_compile]
+  simp only [qnmatchCached, lruCall]
+  cases hf : lruFind c.entries p with
+  | some as =>
+    have := lruFind_ok c.entries p as hc hf
+    simp only [this]
+    refine ⟨trivial, ?_⟩
+    intro kv hkv
+    rcases List.mem_cons.mp hkv with rfl | hkv
+    · exact this
+    · exact hc kv (lruErase_sub _ _ _ hkv)
+  | none =>
+    cases hcp : compilePattern p with
+    | reError => exact ⟨rfl, hc⟩
+    | indexError => exact ⟨rfl, hc⟩
+    | ok as =>
+      refine ⟨rfl, ?_⟩
+      intro kv hkv
+      have := List.mem_of_mem_take hkv
+      rcases List.mem_cons.mp this with rfl | h
+      · exact hcp
+      · exact hc kv h
+
+/-- **The `lru_cache` around `_compile_pattern` is transparent**: for any bound `maxsize` and any
+history of `qnmatch(name, pattern)` calls (hits, misses, evictions, patterns that raise), every
+answer is the one the uncached function gives. -/
+theorem lru_transparent (m : Nat) : ∀ (qs : List (List Char × List Char)) (c : Lru),
+    LruOk c.entries → (runLru m c qs).1 = qs.map (fun q => qnmatch q.1 q.2)
+  | [], _, _ => rfl
+  | (n, p) :: qs, c, hc => by
+    obtain ⟨h1, h2⟩ := qnmatchCached_ok m c n p hc
+    simp only [runLru, List.map_cons]
+    rw [h1, lru_transparent m qs _ h2]
+
+theorem lru_transparent_empty (m : Nat) (qs : List (List Char × List Char)) :
+    (runLru m Lru.empty qs).1 = qs.map (fun q => qnmatch q.1 q.2) :=
+  lru_transparent m qs Lru.empty (fun _ h => by simp [Lru.empty] at h)
+
+example : (runLru 1 Lru.empty [(['a'], ['a']), (['a'], ['?']), (['b'], ['a']), (['a'], ['[', 'b', '-', 'a', ']'])]).1
+    = [.ok true, .ok true, .ok false, .reError] := by decide
+
+/-! ### what patterns mean at the edges of a qualified name -/
+
+/-- no metacharacter: none of `*`, `?`, `[` -/
+def Plain (q : List Char) : Prop := ∀ c ∈ q, c ≠ '*' ∧ c ≠ '?' ∧ c ≠ '['
+
+theorem patTokens_cons_plain (c : Char) (r : List Char) (h1 : c ≠ '*') (h2 : c ≠ '?') (h3 : c ≠ '[') :
+    patTokens (c :: r) = .ch c :: patTokens r := by
+  simp only [patTokens, List.length_cons]
+  rw [tokens.eq_def]
+  simp [h1, h2, h3]
+
+theorem patTokens_plain_append : ∀ (q r : List Char), Plain q →
+    patTokens (q ++ r) = q.map GTok.ch ++ patTokens r
+  | [], _, _ => rfl
+  | c :: q, r, h => by
+    obtain ⟨h1, h2, h3⟩ := h c (by simp)
+    rw [List.cons_append, patTokens_cons_plain c _ h1 h2 h3,
+      patTokens_plain_append q r (fun x hx => h x (List.mem_cons_of_mem _ hx))]
+    rfl
+
+theorem specMatch_chs : ∀ (q : List Char) (ts : List GTok) (n : List Char),
+    specMatch (q.map GTok.ch ++ ts) n = (q.isPrefixOf n && specMatch ts (n.drop q.length))
+  | [], ts, n => by simp
+  | c :: q, ts, [] => by simp [specMatch]
+  | c :: q, ts, x :: n => by
+    simp only [List.map_cons, List.cons_append, specMatch, specMatch_chs q ts n, List.isPrefixOf,
+      List.length_cons, List.drop_succ_cons]
+    by_cases h : x = c
+    · subst h; simp
+    · have : ¬ c = x := fun e => h e.symm
+      simp [h, this]
+
+/-- **A text without metacharacters matches exactly itself** (so an exact rule is also a pattern
+rule for the same object, never for another one). -/
+theorem spec_plain (p n : List Char) (h : Plain p) : spec p n = decide (n = p) := by
+  have := patTokens_plain_append p [] h
+  simp only [List.append_nil] at this
+  have ht : patTokens [] = [] := rfl
+  simp only [spec, this, ht, specMatch_chs, specMatch]
+  by_cases e : n = p
+  · subst e; simp
+  · simp only [e, decide_false, Bool.and_eq_false_iff]
+    by_cases hp : p.isPrefixOf n = true
+    · right
+      have hpre : p <+: n := List.isPrefixOf_iff_prefix.mp hp
+      obtain ⟨t, rfl⟩ := hpre
+      cases t with
+      | nil => simp at e
+      | cons a t => simp
+    · left; exact Bool.eq_false_iff.mpr hp
+
+theorem specMatch_dstar_end : ∀ n : List Char, specMatch [.dstar] n = true
+  | [] => by simp [specMatch, splits]
+  | x :: n => by
+    have := specMatch_dstar_end n
+    simp only [specMatch, splits, List.any_cons, List.any_map] at this ⊢
+    cases n with
+    | nil => simp [splits]
+    | cons y n' =>
+      simp only [List.isEmpty_cons, Bool.false_or]
+      have h2 : ((fun uv : List Char × List Char => uv.2.isEmpty) ∘
+          fun uv : List Char × List Char => (x :: uv.1, uv.2)) = fun uv => uv.2.isEmpty := rfl
+      rw [h2]; exact this
+
+/-- `**` alone matches every name ("PUBLIC:**" makes everything public) -/
+theorem spec_dstar_all (n : List Char) : spec ['*', '*'] n = true := by
+  have : patTokens ['*', '*'] = [.dstar] := by decide
+  simp only [spec, this]; exact specMatch_dstar_end n
+
+theorem starLazy_end (ok : Char → Bool) : ∀ n : List Char,
+    starLazy ok (fun m => m.isEmpty) n = n.all ok
+  | [] => rfl
+  | x :: n => by simp [starLazy, starLazy_end ok n]
+
+theorem specMatch_star_end (n : List Char) : specMatch [.star] n = n.all (· != '.') := by
+  simp only [specMatch]
+  rw [← starLazy_splits (fun c => c != '.') (fun m => m.isEmpty) n, starLazy_end]
+
+/-- `pkg.**` matches exactly the names that begin with `pkg.` — everything below `pkg`, at any
+depth, not `pkg` itself, not `pkgx.y` -/
+theorem spec_below_any_depth (q n : List Char) (h : Plain q) :
+    spec (q ++ ['.', '*', '*']) n = (q ++ ['.']).isPrefixOf n := by
+  have ht : patTokens ['.', '*', '*'] = [.ch '.', .dstar] := by decide
+  have h1 := patTokens_plain_append q ['.', '*', '*'] h
+  have h2 : q.map GTok.ch ++ [GTok.ch '.', GTok.dstar] = (q ++ ['.']).map GTok.ch ++ [GTok.dstar] := by simp
+  simp only [spec, h1, ht, h2, specMatch_chs, specMatch_dstar_end, Bool.and_true]
+
+/-- `pkg.*` matches exactly `pkg.` followed by one dot-free component — the direct members of
+`pkg` (the component may be empty: `pkg.` itself, which is no object's name) -/
+theorem spec_direct_members (q n : List Char) (h : Plain q) :
+    spec (q ++ ['.', '*']) n =
+      ((q ++ ['.']).isPrefixOf n && (n.drop (q.length + 1)).all (· != '.')) := by
+  have ht : patTokens ['.', '*'] = [.ch '.', .star] := by decide
+  have h1 := patTokens_plain_append q ['.', '*'] h
+  have h2 : q.map GTok.ch ++ [GTok.ch '.', GTok.star] = (q ++ ['.']).map GTok.ch ++ [GTok.star] := by simp
+  simp only [spec, h1, ht, h2, specMatch_chs, specMatch_star_end, List.length_append, List.length_cons,
+    List.length_nil]
+
+/-- `**.name` (as in `PRIVATE:**.__init__`) matches exactly the names that end with `.name`: a
+top-level object called `name` is not matched, `x.yname` is not either -/
+theorem spec_anywhere (s n : List Char) (h : Plain s) :
+    spec ('*' :: '*' :: '.' :: s) n = true ↔ ('.' :: s) <:+ n := by
+  have hp : Plain ('.' :: s) := by
+    intro c hc
+    rcases List.mem_cons.mp hc with rfl | hc
+    · decide
+    · exact h c hc
+  have ht : patTokens ('*' :: '*' :: '.' :: s) = .dstar :: patTokens ('.' :: s) := by
+    simp only [patTokens, List.length_cons]
+    rw [tokens.eq_def]
+    simp only [if_true, show ('*' : Char) = '*' from rfl]
+    exact congrArg _ (tokens_fuel _ _ _ (by simp) (by simp))
+  have h1 := patTokens_plain_append ('.' :: s) [] hp
+  simp only [List.append_nil] at h1
+  have hnil : patTokens [] = [] := rfl
+  rw [spec, ht, dstar_meaning]
+  constructor
+  · rintro ⟨u, v, rfl, hv⟩
+    have : spec ('.' :: s) v = true := hv
+    rw [spec_plain _ _ hp] at this
+    have : v = '.' :: s := by simpa using this
+    subst this; exact ⟨u, rfl⟩
+  · rintro ⟨u, rfl⟩
+    refine ⟨u, '.' :: s, rfl, ?_⟩
+    have : spec ('.' :: s) ('.' :: s) = true := by rw [spec_plain _ _ hp]; simp
+    exact this
+
+example : spec ['p', '.', '*'] ['p', '.', 'a'] = true ∧ spec ['p', '.', '*'] ['p'] = false ∧
+    spec ['p', '.', '*'] ['p', '.', 'a', '.', 'b'] = false ∧ spec ['*', '*', '.', 'x'] ['x'] = false ∧
+    spec ['*', '*', '.', 'x'] ['a', '.', 'x'] = true ∧ spec ['*', '.', 'x'] ['.', 'x'] = true := by decide
+
+end Glob
+
+/-! ## Round 3: the option parser, hidden containers, names -/
+namespace Privacy
+
+theorem splitColon_ne_nil : ∀ v, splitColon v ≠ []
+  | [] => by simp [splitColon]
+  | c :: r => by
+    simp only [splitColon]
+    cases splitColon r with
+    | nil => simp
+    | cons p ps => by_cases h : c = ':' <;> simp [h]
+
+theorem splitColon_length : ∀ v, (splitColon v).length = v.count ':' + 1
+  | [] => rfl
+  | c :: r => by
+    have ih := splitColon_length r
+    simp only [splitColon]
+    cases hs : splitColon r with
+    | nil => exact absurd hs (splitColon_ne_nil r)
+    | cons p ps =>
+      rw [hs] at ih
+      by_cases h : c = ':'
+      · subst h; simp only [if_true, List.length_cons] at ih ⊢; simp; omega
+      · have hcnt : (c :: r).count ':' = r.count ':' := by simp [List.count_cons, h]
+        simp only [h, if_false, List.length_cons, hcnt] at ih ⊢
+        omega
+
+/-- **A `--privacy` value needs exactly one colon**: none, or a pattern that itself contains a
+colon, is refused (`malformatted value`); qualified names never contain one. -/
+theorem parseRule_colons (v : List Char) (h : v.count ':' ≠ 1) : parseRule v = .systemExit := by
+  have hl := splitColon_length v
+  simp only [parseRule]
+  split
+  · rename_i a b hab
+    rw [hab] at hl
+    simp only [List.length_cons, List.length_nil] at hl
+    omega
+  · rfl
+
+/-- **What the option parser accepts**: `<level>:<pattern>` where the level, stripped and in upper
+case, is HIDDEN, PRIVATE, PUBLIC or VISIBLE (= PUBLIC), and the stripped pattern has no backwards
+range; the rule carries the stripped pattern. -/
+theorem parseRule_ok_iff (v : List Char) (r : Rule) :
+    parseRule v = .ok r ↔
+      ∃ a b, splitColon v = [a, b] ∧ levelOfName (upper (strip a)) = some r.level ∧
+        r.pat = strip b ∧ Glob.wellFormed (strip b) = true := by
+  constructor
+  · intro h
+    have hw := parseRule_wellFormed v r h
+    simp only [parseRule] at h
+    split at h
+    · rename_i a b hab
+      split at h
+      · cases h
+      · rename_i l hl
+        split at h
+        · cases h
+        · split at h
+          · simp only [Parsed.ok.injEq] at h
+            subst h
+            exact ⟨a, b, hab, hl, rfl, hw⟩
+          · cases h
+    · cases h
+  · rintro ⟨a, b, hab, hl, hp, hw⟩
+    have hc : Glob.compilesPat (strip b) = true := by rw [Glob.compiles_iff]; exact hw
+    simp only [Glob.compilesPat, Glob.translate_total] at hc
+    cases r with
+    | mk lv pat =>
+      simp only at hl hp
+      subst hp
+      simp [parseRule, hab, hl, Glob.translate_total, hc]
+
+example : parseRule [' ', 'h', 'i', 'd', 'd', 'e', 'n', ' ', ':', ' ', 'a', '.', '*', ' '] = .ok ⟨.hidden, ['a', '.', '*']⟩ ∧
+    parseRule ['V', 'i', 's', 'i', 'b', 'l', 'e', ':', 'a'] = .ok ⟨.pub, ['a']⟩ ∧
+    parseRule ['P', 'U', 'B', 'L', 'I', 'K', ':', 'a'] = .systemExit ∧
+    parseRule ['P', 'U', 'B', 'L', 'I', 'C', ':', 'a', ':', 'b'] = .systemExit ∧
+    parseRule ['P', 'U', 'B', 'L', 'I', 'C'] = .systemExit := by decide
+
+/-- **Command line replaces configuration file**: when any `--privacy` is given on the command
+line the file's list plays no role (not even its malformed values); otherwise the file's list is
+the rule list. -/
+theorem effective_cli_wins (cli cfg : List (List Char)) (h : cli ≠ []) :
+    parseEffective cli cfg = parseRules cli := by
+  cases cli with
+  | nil => exact absurd rfl h
+  | cons v vs => simp [parseEffective, effectiveValues]
+
+theorem effective_file_only (cfg : List (List Char)) : parseEffective [] cfg = parseRules cfg := by
+  simp [parseEffective, effectiveValues]
+
+/-- precedence for the rule list a run is really given (file and command line combined) -/
+theorem precedence_effective (cli cfg : List (List Char)) (rules : List Rule) (ob : Obj)
+    (h : parseEffective cli cfg = .ok rules) (hk : ob.kindNone = false) :
+    (privacyClass rules [] ob).1 = .ok (specLevel rules ob) :=
+  precedence_cli _ rules ob h hk
+
+/-! ### hidden containers -/
+
+theorem visPure_meaning (rules : List Rule) : ∀ (chain : List Obj),
+    visPure rules chain = .ok true ↔
+      (∀ ob ∈ chain, ∃ l, (privacyClass rules [] ob).1 = .ok l ∧ l ≠ .hidden) ∧
+        (∀ ob ∈ chain.dropLast, ob.inContents = true)
+  | [] => by simp [visPure]
+  | ob :: parents => by
+    have ih := visPure_meaning rules parents
+    rw [visPure.eq_def]
+    dsimp only
+    cases hp : (privacyClass rules [] ob).1 with
+    | err e => simp [hp]
+    | ok l =>
+      by_cases hl : l = .hidden
+      · subst hl; simp [hp]
+      · cases parents with
+        | nil => simp [hl, hp]
+        | cons p ps =>
+          simp only [ne_eq, hl, not_false_eq_true, if_true, List.mem_cons, forall_eq_or_imp,
+            List.dropLast_cons_cons]
+          by_cases hc : ob.inContents = true
+          · simp only [hc, if_true]
+            rw [ih]
+            simp only [List.mem_cons, forall_eq_or_imp, hp, Res.ok.injEq, exists_eq_left']
+            constructor
+            · rintro ⟨h1, h2⟩; exact ⟨⟨hl, h1⟩, trivial, h2⟩
+            · rintro ⟨⟨_, h1⟩, _, h2⟩; exact ⟨h1, h2⟩
+          · simp only [hc, if_false, Bool.false_eq_true]
+            constructor
+            · intro h; cases h
+            · rintro ⟨_, h, _⟩; exact h.elim
+
+/-- **"If a module/package/class is hidden, then all its members are hidden as well"**: an object
+with a HIDDEN object anywhere on its parent chain is never visible, whatever its own class. -/
+theorem hidden_propagates (rules : List Rule) (chain : List Obj) (a : Obj) (ha : a ∈ chain)
+    (hh : (privacyClass rules [] a).1 = .ok .hidden) : visPure rules chain ≠ .ok true := by
+  intro h
+  obtain ⟨l, h1, h2⟩ := ((visPure_meaning rules chain).mp h).1 a ha
+  rw [hh] at h1
+  simp only [Res.ok.injEq] at h1
+  exact h2 h1.symm
+
+/-! ### one qualified name, one name -/
+
+/-- what `Documentable.fullName` guarantees when names contain no dot: the qualified name is the
+name, or the parent's qualified name, a dot, and the name -/
+def WellNamed (o : Obj) : Prop :=
+  '.' ∉ o.name ∧ (o.fullName = o.name ∨ ∃ pre, o.fullName = pre ++ '.' :: o.name)
+
+def lastComp (s : List Char) : List Char := (s.reverse.takeWhile (· != '.')).reverse
+
+theorem takeWhile_all {p : Char → Bool} : ∀ (l r : List Char), (∀ x ∈ l, p x = true) →
+    (l ++ r).takeWhile p = l ++ r.takeWhile p
+  | [], _, _ => rfl
+  | a :: l, r, h => by
+    simp only [List.cons_append, List.takeWhile_cons, h a (by simp), if_true]
+    rw [takeWhile_all l r (fun x hx => h x (List.mem_cons_of_mem _ hx))]
+
+theorem lastComp_of_wellNamed (o : Obj) (h : WellNamed o) : lastComp o.fullName = o.name := by
+  obtain ⟨hd, hf⟩ := h
+  have hall : ∀ x ∈ o.name.reverse, (x != '.') = true := by
+    intro x hx
+    have : x ∈ o.name := List.mem_reverse.mp hx
+    simp only [bne_iff_ne, ne_eq]
+    intro e; subst e; exact hd this
+  rcases hf with hf | ⟨pre, hf⟩
+  · rw [lastComp, hf]
+    have := takeWhile_all (p := (· != '.')) o.name.reverse [] hall
+    simp only [List.append_nil, List.takeWhile_nil] at this
+    rw [this, List.reverse_reverse]
+  · rw [lastComp, hf]
+    have hr : (pre ++ '.' :: o.name).reverse = o.name.reverse ++ '.' :: pre.reverse := by simp
+    rw [hr, takeWhile_all (p := (· != '.')) o.name.reverse _ hall]
+    simp
+
+/-- the `Coherent` hypothesis of the cache theorems follows from facts one can read off a real
+system: names without dots, every object has a kind, and module-ness is a function of the
+qualified name -/
+theorem coherent_of_wellNamed (U : List Obj) (hn : ∀ o ∈ U, WellNamed o)
+    (hk : ∀ o ∈ U, o.kindNone = false)
+    (hm : ∀ a ∈ U, ∀ b ∈ U, a.fullName = b.fullName → a.isModule = b.isModule) : Coherent U := by
+  intro a ha b hb hf
+  refine ⟨?_, hm a ha b hb hf, by rw [hk a ha, hk b hb]⟩
+  rw [← lastComp_of_wellNamed a (hn a ha), ← lastComp_of_wellNamed b (hn b hb), hf]
+
+theorem cache_transparent_moves_wellNamed (rules : List Rule) (w : World) (es : List Event)
+    (hn : ∀ o ∈ records w es, WellNamed o) (hk : ∀ o ∈ records w es, o.kindNone = false)
+    (hm : ∀ a ∈ records w es, ∀ b ∈ records w es, a.fullName = b.fullName → a.isModule = b.isModule) :
+    (runEvents rules w [] es).1 = pureEvents rules w es :=
+  cache_transparent_moves rules w es (coherent_of_wellNamed _ hn hk hm)
+
+end Privacy
